@@ -205,6 +205,37 @@ fn range_assign(ctx: &Ctx, s: &Seq, ok: &mut Vec<Snippet>, bad: &mut Vec<(Case, 
     }
 }
 
+// The list itself (or an alias) on the right-hand side: valid only when the
+// range is the whole list; every other bound pair is still an error.
+fn self_range_assign(ctx: &Ctx, s: &Seq, ok: &mut Vec<Snippet>, bad: &mut Vec<(Case, bool)>) {
+    let len = s.len();
+    let mut bounds: Vec<Option<i64>> = vec![None];
+    for v in -1..=len + 2 {
+        bounds.push(Some(v));
+    }
+    for a in &bounds {
+        for b in &bounds {
+            let av = a.unwrap_or(0);
+            let bv = b.unwrap_or(len);
+            let valid = 0 <= av && av < bv && bv <= len && (bv - av) == len;
+            for alias in [false, true] {
+                let rhs = if alias { "ys" } else { "xs" };
+                let src = format!("xs := {}\nys := xs\nxs[{}:{}] = {rhs}\nprint(xs)", s.lit, bound_src(*a), bound_src(*b));
+                if valid {
+                    ctx.label("range assign of the list to itself: defined");
+                    ok.push(Snippet{body: src, expect: fmt_list(&s.elems), nontrivial: true, note: "xs[0:len] = xs is a no-op".into()});
+                } else {
+                    ctx.label("range assign of the list to itself: error");
+                    bad.push(err_case("range_assign_self", format!("{src}\n"), format!("xs[{}:{}] = {rhs} on length {len}", bound_src(*a), bound_src(*b)), true));
+                }
+            }
+        }
+    }
+    for k in ["\"a\"", "null", "[0]"] {
+        bad.push(err_case("range_assign_self", format!("xs := {}\nxs[{k}:] = xs\nprint(xs)\n", s.lit), "non-integer bound with the list itself on the right".into(), true));
+    }
+}
+
 // A string on the right-hand side is taken byte-wise, also when it contains
 // multi-byte characters: the slots are compared with the bytes of `ys`.
 fn range_assign_multibyte(ctx: &Ctx, ok: &mut Vec<Snippet>, bad: &mut Vec<(Case, bool)>) {
@@ -308,6 +339,19 @@ pub fn run(ctx: &Ctx) {
     for s in &lists {
         index_assign(ctx, s, &mut ok, &mut bad);
         range_assign(ctx, s, &mut ok, &mut bad, 1);
+        self_range_assign(ctx, s, &mut ok, &mut bad);
+    }
+    // Long sequences: sizes beyond any small-collection fast path.
+    for n in [17usize, 21, 33, 64] {
+        let long = list_seq(n, false);
+        let n = n as i64;
+        for (a, b) in [(0, n), (1, n - 1), (n - 1, n), (n / 2, n / 2), (0, 0), (n, n), (20.min(n), n), (0, 21.min(n))] {
+            ok.push(Snippet{body: format!("xs := {}\nprint(xs[{a}:{b}])\nprint((xs[:{a}] + xs[{a}:]) == xs)", long.lit), expect: format!("{}true\n", fmt_list(&long.elems[a as usize..b as usize])), nontrivial: true, note: format!("long list of {n}")});
+        }
+        ok.push(Snippet{body: format!("xs := {}\nxs[{}:{}] = {}\nprint(xs[{}])\nprint(xs[{}])", long.lit, n - 3, n, "\"abc\"", n - 1, n - 4), expect: format!("c\n{}\n", long.elems[(n - 4) as usize]), nontrivial: true, note: format!("long list of {n}: range assign at the end")});
+        bad.push(err_case("index_read", format!("xs := {}\nprint(xs[{n}])\n", long.lit), format!("index {n} of length {n}"), true));
+        let word: String = (0..n).map(|i| (b'a' + (i % 26) as u8) as char).collect();
+        ok.push(Snippet{body: format!("s := \"{word}\"\nprint(s[{}:])\nprint(s->len())\nprint((s[:{}] + s[{}:]) == s)", n - 2, n / 2, n / 2), expect: format!("{}\n{n}\ntrue\n", &word[(n - 2) as usize..]), nontrivial: true, note: format!("long string of {n}")});
     }
     range_assign_multibyte(ctx, &mut ok, &mut bad);
     concat_laws(&mut ok, &lists);
